@@ -97,6 +97,7 @@ def parseCall (w : String) : Option (List Conc.Instr) :=
   | 'S' :: r => (String.ofList r).toInt?.map Conc.setPhaseI
   | 'L' :: r => (String.ofList r).toInt?.map Conc.lockedSetPhaseI
   | 'R' :: r => (String.ofList r).toInt?.map Conc.resetI
+  | 'O' :: r => (String.ofList r).toInt?.map Conc.setPhaseOldI   -- historical load/store setPhase
   | _ => none
 
 def parseProg (w : String) : Option (List Conc.Instr) :=
